@@ -122,6 +122,44 @@ func render(sb *strings.Builder, v reflect.Value) {
 	}
 }
 
+// Names returns the exported field names of a struct type in declaration order, recursively
+// through pointers, slices, arrays and nested structs: `Round,SetID,Message(Stage,BlockHash)`.
+// Render shows values by position only; Names ties the positions to the Go field names, so that
+// two same-typed fields exchanged in a struct definition are noticed.
+func Names(x any) string {
+	var sb strings.Builder
+	names(&sb, reflect.TypeOf(x), 0)
+	return sb.String()
+}
+
+func names(sb *strings.Builder, t reflect.Type, depth int) {
+	for t.Kind() == reflect.Ptr || t.Kind() == reflect.Slice || t.Kind() == reflect.Array {
+		t = t.Elem()
+	}
+	if t.Kind() != reflect.Struct || depth > 6 {
+		return
+	}
+	first := true
+	for i := 0; i < t.NumField(); i++ {
+		f := t.Field(i)
+		if f.PkgPath != "" {
+			continue
+		}
+		if !first {
+			sb.WriteByte(',')
+		}
+		first = false
+		sb.WriteString(f.Name)
+		var sub strings.Builder
+		names(&sub, f.Type, depth+1)
+		if sub.Len() > 0 {
+			sb.WriteByte('(')
+			sb.WriteString(sub.String())
+			sb.WriteByte(')')
+		}
+	}
+}
+
 // ---------------------------------------------------------------- schema descriptions
 type Kind int
 
@@ -547,8 +585,8 @@ func Mutations(r RNG, t *Ty, emit func(kind string, b []byte)) {
 	default: // crafted length prefix somewhere in the message
 		var l uint64
 		switch r.Intn(4) {
-		case 0:
-			l = uint64(512<<10 + r.Intn(512<<10))
+		case 0: // above the allocation budget for short inputs, cheap enough to really allocate
+			l = uint64(320<<10 + r.Intn(128<<10))
 		case 1:
 			l = 1<<32 - 1 - uint64(r.Intn(3))
 		case 2:
